@@ -81,10 +81,64 @@ Definition kf_fullword_other_length (md : mods) (h : hir) (mem : list N) : bool 
     existsb (fun ok => ok) cands && existsb negb cands)
   (iota 0 (nlen mem)).
 
+(* known finding "wide boundary, reverse context": the custom wide runner walks backwards from the end
+   of the literal down to its lower bound and then takes the end-of-input transition, also when a wide
+   character precedes the bound (which is the case for every start after the first one of the reverse
+   enumeration): a `\b`/`\B` at the start of the regex is then judged as if the text started there
+   (the unit test `test_find_wide_anchored_rev` pins this for a span starting at 2).  Class: wide string
+   whose reverse validator has a word boundary, and the scan finds other offsets when the runner is
+   given the preceding wide character. *)
+Definition custom_wide_rev_ctx (fl : rflags) (h : hir) (mem : list N) (lo e : N) : option N :=
+  let '(i0, u) := wide_run_rev (S (length mem)) mem lo e [] in
+  let prev := if (2 <=? i0) && is_nul_at mem (i0 - 1)
+              then match byte_at mem (i0 - 2) with Some b => [b] | None => [] end else [] in
+  let base := nlen prev in
+  match rev_min_start fl (prev ++ u) h base (nlen (prev ++ u)) with
+  | Some s => Some (i0 + 2 * (s - base))
+  | None => None
+  end.
+
+Definition dfa_rev_ctx (md : mods) (h : hir) (mt : mtype) (mem : list N) (lo e : N) : option N :=
+  if (lo <=? e) && use_custom md h mt then custom_wide_rev_ctx (flags_of md) h mem lo e
+  else dfa_rev md h mt mem lo e.
+
+Definition process_ctx (d : sdesc) (mem : list N) (ms me sp : N) (mt : mtype) : list (N * N) :=
+  let md := s_mods d in
+  match s_kind d, s_pre d with
+  | KNonGreedy, Some pre =>
+      filter (fun se => validate_fullword md mem (fst se) (snd se) mt)
+        (validate_nongreedy (nlen mem)
+           (option_map (fun h => half_fwd md h mt mem) (s_post d))
+           (Some (dfa_rev_ctx md pre mt mem)) ms me sp)
+  | KGreedy, Some pre =>
+      filter (fun se => validate_fullword md mem (fst se) (snd se) mt)
+        (validate_greedy (nlen mem) (dfa_rev_ctx md pre mt mem) (dfa_fwd md (s_hir d) mt mem) ms me sp)
+  | _, _ => process_ac_match d mem ms me sp mt
+  end.
+
+Definition ac_scan_ctx (d : sdesc) (mem : list N) (max_nb : N) : list (N * N) :=
+  fold_left (fun acc (h : N * N * N * mtype) =>
+               let '(_, ms, me, mt) := h in
+               let sp := match last_offset acc with Some o => o + 1 | None => 0 end in
+               let acc' := fold_left (fun a se => insert_match a (fst se, snd se - fst se))
+                                     (process_ctx d mem ms me sp mt) acc in
+               if max_nb <? nlen acc' then firstn (N.to_nat max_nb) acc' else acc')
+            (hits d mem) [].
+
+Definition kf_wide_rev_context (d : sdesc) (mem : list N) : bool :=
+  match s_pre d with
+  | Some pre =>
+      m_wide (s_mods d) && has_word_boundary pre
+      && negb (list_eqb N.eqb (map fst (ac_scan_ctx d mem default_max_nb))
+                        (map fst (ac_scan true d mem default_max_nb)))
+  | None => false
+  end.
+
 Definition one_input_re (d : sdesc) (h : hir) (mem : list N) (out : list (N * N)) : bool * bool * N :=
   (matches_eqb out (model_scan d mem default_max_nb),
    spec_regex (s_mods d) h mem out,
-   if kf_alt_glue d h mem then 3
+   if kf_wide_rev_context d mem then 4
+   else if kf_alt_glue d h mem then 3
    else if kf_fullword_other_length (s_mods d) h mem then 2
    else if kf_start_position d mem default_max_nb then 1 else 0).
 
